@@ -233,6 +233,12 @@ def gen_entries(rng, n, t0_us=None, pattern="increasing", binary_p=0.1, multilin
             pass
         elif pattern == "subsecond":
             t += rng.choice((1, 2, 10, 999))
+        elif pattern == "stepped_back":
+            # the wall clock was set back while the journal was being written: receive times are not monotone, sequence
+            # numbers and monotonic times are; the journal's own order stays the order of the file
+            t += rng.choice((1, 1000, 1_000_000))
+            if i and rng.random() < 0.15:
+                t -= rng.choice((90_000_000, 3_600_000_000, 5, 1_000_001))
         else:
             raise ValueError(pattern)
         mono += rng.choice((1, 50, 10**6))
